@@ -307,18 +307,67 @@ StaticTreeRec = ty.Rec(common.StaticTree, dict(graph=ty.SameRef(), i=ty.Int, lab
                        eq=["graph", "i", "label"])
 
 
-def _fost_row_facts(row, args):
-    sql = ("SELECT i, label FROM node WHERE kind = 'st' AND NOT detached AND "
-           "label = substr(?, 1, length(label))")
-    return trusted.where_holds(sql, args, dict(i=row[0], label=row[1], detached=cur().data["args"]["self"]._fields["db"].fact("detached", row[0])))
+def OT(db, path) -> tm.T:
+    """Ghost choice function: an attached static tree that owns `path`, if there is one."""
+    return db.fact("owningtree", path, sort=tm.INT)
+
+
+def owns_t(db, t, path) -> tm.T:
+    """Spec: t is an attached static tree whose label is a prefix of Path(path)/""."""
+    from contracts import graphdb
+
+    t = sym.I(t)
+    return tm.And(graphdb.exists(db, "node", t), tm.Eq(graphdb.val(db, "node", "kind", t), tm.mk_str("st")),
+                  tm.Not(db.fact("detached", t)), tm.PrefixOf(graphdb.val(db, "node", "label", t), _norm_dir(S(path))))
+
+
+def owned(db, path) -> tm.T:
+    return common.View(db).owned(path)
+
+
+def owner_axiom(db, path, *ids):
+    """Definition of the abstract view at `path`: owned(path) iff the choice OT(path) is an owner; any owner
+    implies that OT(path) is one."""
+    cur().pc.append(tm.Iff(owned(db, path), owns_t(db, OT(db, path), path)))
+    for t in ids:
+        cur().pc.append(tm.Implies(owns_t(db, t, path), owned(db, path)))
+
+
+def _fost_witness(keys, args, row):
+    c = cur()
+    owner_axiom(c.data["cursor"].db, c.data["args"]["path"], keys["node"])
+
+
+def _fost_none_keys(args):
+    c = cur()
+    owner_axiom(c.data["args"]["self"]._fields["db"], c.data["args"]["path"])
+    return [dict(node=OT(c.data["args"]["self"]._fields["db"], c.data["args"]["path"]))]
+
+
+def _fost_query():
+    from contracts import graphdb
+
+    return graphdb.query("SELECT i, label FROM node WHERE kind = 'st'", ty.TupleOf(ty.Int, ty.Str),
+                         witness=_fost_witness, none_keys=_fost_none_keys)
+
+
+def _label_of(db, i):
+    from contracts import graphdb
+
+    return graphdb.val(db, "node", "label", sym.I(i))
 
 
 def _fost_post(self, path, result):
-    """The tree returned owns `path`: its label is a prefix of Path(path)/""."""
+    """None exactly when no attached static tree owns `path` (its label a prefix of Path(path)/""); otherwise
+    the result is such a tree."""
+    db = self._fields["db"]
     r = sym.resolve(result)
     if r is None:
-        return True
-    return wrap_bool(tm.And(tm.PrefixOf(S(r.label), _norm_dir(S(path))), tm.Not(self._fields["db"].fact("detached", r.i))))
+        return wrap_bool(tm.Not(owned(db, path)))
+    from contracts import graphdb
+
+    owner_axiom(db, path, r.i)
+    return wrap_bool(tm.And(owns_t(db, r.i, path), tm.Eq(S(r.label), graphdb.val(db, "node", "label", sym.I(r.i)))))
 
 
 @contract("stepup/core/workflow.py::Workflow._find_owning_static_tree", props=["C18", "C08"])
@@ -326,8 +375,7 @@ class find_owning_static_tree:
     """`label = substr(P, 1, length(label))` with P = Path(path)/"" selects the tree labels that are a
     prefix of P, i.e. the trees T with under(T, P) (tree labels end with a separator)."""
 
-    args = dict(self=workflow_spec(queries=[("SELECT i, label FROM node WHERE kind = 'st'",
-                                             ty.TupleOf(ty.Int, ty.Str), _fost_row_facts)]), path=ty.Str)
+    args = dict(self=lambda a: workflow_spec(queries=[_fost_query()]).fresh("workflow"), path=ty.Str)
     env = dict(Path=trusted.Path)
     may_raise = {common.excmod.GraphError: None}
     events = {"sql": lambda e, path: _site(
@@ -339,8 +387,8 @@ class find_owning_static_tree:
         locals=dict(trees=ty.SeqOf(StaticTreeRec)),
         invariant=lambda e: (sym.wrap_int(e.trees.length) == e.i) & wrap_bool(tm.Implies(
             tm.Ge(e.trees.length, tm.mk_int(1)),
-            tm.And(tm.PrefixOf(S(e.trees.elem(tm.mk_int(0)).label), _norm_dir(S(e.entry.path))),
-                   tm.Not(e.entry.self._fields["db"].fact("detached", e.trees.elem(tm.mk_int(0)).i)))))
+            tm.And(owns_t(e.entry.self._fields["db"], e.trees.elem(tm.mk_int(0)).i, e.entry.path),
+                   tm.Eq(S(e.trees.elem(tm.mk_int(0)).label), _label_of(e.entry.self._fields["db"], e.trees.elem(tm.mk_int(0)).i)))))
         if isinstance(e.trees, sym.SymSeq) else True)}
 
 
@@ -367,32 +415,6 @@ def _rst_site(e, path):
 def _fresh_bool(name):
     c = cur()
     return sym.SymBool(c.fresh(c.fresh_name(name), BOOL))
-
-
-@contract("stepup/core/workflow.py::Workflow.declare_static_files", props=[], verify=False,
-          note="used as a callee of register_static_tree: returns hashes to check; may raise GraphError")
-class declare_static_files_assumed:
-    may_raise = {common.GraphError: None}
-    result = lambda: ty.MapOf(ty.Str, ty.Opaque("FileHashV"))
-    modifies = []
-
-
-RST_QUERIES = [
-    ("SELECT 1 FROM node WHERE kind = 'st'", ty.TupleOf(ty.Int)),
-    ("SELECT node.i, node.label, node.creator, file.state", ty.TupleOf(ty.Int, ty.Str, ty.Int, ty.Int)),
-    ("SELECT label FROM node JOIN file", ty.TupleOf(ty.Str)),
-]
-
-
-@contract("stepup/core/workflow.py::Workflow.register_static_tree", props=["C18"])
-class register_static_tree:
-    args = dict(self=workflow_spec(queries=RST_QUERIES), creator=common.node_spec(common.Node), path=ty.Str)
-    env = dict(Path=trusted.Path, has_any_wildcards=lambda p: _fresh_bool("has_any_wildcards"))
-    may_raise = {common.GraphError: None, common.ConsistencyError: None}
-    events = {"sql": lambda e, path: _rst_site(e, path)}
-    finish = lambda c, outcome, args, old: _rst_finish(c, outcome)
-    modifies = []
-    loops = {0: LoopSpec(locals=dict(handover=ty.SeqOf(ty.Int)))}
 
 
 def _rst_finish(c, outcome):
